@@ -349,7 +349,7 @@ def run(ctx):
     ctx.rule("R02.8", "a spelled value is not rejected or replaced because of an earlier parse (R14.2 re-evaluated) and raw strings become tokens in one place only (R12.10 re-evaluated)")
     if ctx.prop == "C02" and not getattr(ctx, "_sharing", False):
         from .common import share
-        share(ctx, "C14", ("R14.2",), "R02.8", "reset obligations shared with C14", 3)
+        share(ctx, "C14", ("R14.2", "R14.3", "R14.5"), "R02.8", "reset obligations shared with C14 (emptied state, the reset pass runs on every parse, the parse path keeps nothing in the parser object)", 3)
         share(ctx, "C12", ("R12.10", "R12.11"), "R02.8", "entry-point obligations shared with C12", 3)
     ctx.assume("the round-trip equation itself, interleavings of items and as<T>() numeric conversion are not decided")
 
